@@ -41,12 +41,18 @@ inductive ALabel where
 
 def chanCap : Nat := Facts.linesCap
 
+/-- capacity of `NextLinesCh` (a registering reader and a rotation's re-queue goroutine block
+    while it is full; the aggregator itself never sends into it: `Facts.rotationRequeueAsync`) -/
+def nextCap : Nat := Facts.nextLinesChCap
+
 def inChan (d : Rd) : Nat := d.pushed - d.consumed
 
 def aggStep (s : Agg) : ALabel → Option Agg
   | .register r =>
     match s.rds[r]? with
-    | some ⟨.notRegistered, p, c⟩ => some { s with rds := s.rds.set r ⟨.open_, p, c⟩, nextQ := s.nextQ ++ [r] }
+    | some ⟨.notRegistered, p, c⟩ =>
+      -- `aggregate.NextLinesCh <- lines` blocks while the queue is full
+      if s.nextQ.length < nextCap then some { s with rds := s.rds.set r ⟨.open_, p, c⟩, nextQ := s.nextQ ++ [r] } else none
     | _ => none
   | .push r =>
     match s.rds[r]?, s.sizes[r]? with
@@ -88,7 +94,7 @@ def aggStep (s : Agg) : ALabel → Option Agg
       | none => none
     | _, _ => none
   | .requeue r =>
-    if r ∈ s.limbo then some { s with limbo := s.limbo.erase r, nextQ := s.nextQ ++ [r] } else none
+    if r ∈ s.limbo ∧ s.nextQ.length < nextCap then some { s with limbo := s.limbo.erase r, nextQ := s.nextQ ++ [r] } else none
 
 def aggRun (s : Agg) : List ALabel → Option Agg
   | [] => some s
